@@ -62,16 +62,19 @@ Theorem dmrg_step_contract (n : nat) : forall (bl : list block) (s : mstate) (bf
     (match next with Some _ => dstart A s' | None => True end) /\
     m_sweeps s' = m_sweeps s + Z.of_nat (length bl) + 1 /\ o_energy s' = rest /\ o_same s' = srest /\
     m_prevE s' = last_prev (m_prevE s) bl /\
+    (m_kind s' = DMRG /\ m_N s' = m_N s /\ m_steps s' = m_steps s /\ m_times s' = m_times s /\
+     m_etol s' = m_etol s /\ m_maxsw s' = m_maxsw s) /\
     exists new, m_ev s' = new ++ m_ev s /\ flat_map (@fill_of A) new = [(m_tidx s, m_tgt s)].
 Proof.
   induction bl as [|b bl IH]; intros s bf rest same srest next HT HN HS Hbl Hbf He Hun Hcv Hbud Hsame Hnext Hfin.
   - cbn [flat_map app] in He. destruct bf as [[[ea eb] ec] el]. rewrite block_flat_app in He. cbn [block_last last_prev] in *.
     destruct Hbf as (Hla & Hlc).
     destruct (dmrg_sweep_converged A ar s n ea eb ec el rest HT HN HS Hla Hlc He same srest next Hcv Hsame Hnext Hfin)
-      as (s' & Hi & _ & _ & _ & _ & Htx & Hcur & Htg & Hds & _ & _ & Hsm & HpE & Hsw & Hen & Hev).
+      as (s' & Hi & Fk & FN & Fst & Fti & Htx & Hcur & Htg & Hds & Fet & Fmx & Hsm & HpE & Hsw & Hen & Hev).
     exists s'. cbn [length Nat.add Nat.mul]. rewrite Nat.add_0_r.
     split; [exact Hi|]. split; [exact Htx|]. split; [exact Hcur|]. split; [exact Htg|]. split; [exact Hds|].
     split; [rewrite Hsw; cbn; lia|]. split; [exact Hen|]. split; [exact Hsm|]. split; [exact HpE|].
+    split; [repeat split; assumption|].
     eexists. split; [rewrite Hev; unfold sweep_trace; rewrite app_comm_cons, app_assoc; reflexivity|].
     rewrite flat_map_app. cbn [flat_map app]. rewrite ?flat_map_app, no_fill_sweep_trace, app_nil_r.
     unfold complete_events. cbn [fill_of]. rewrite rev_app_distr.
@@ -83,7 +86,7 @@ Proof.
     destruct (dmrg_sweep_continue A ar s n ea eb ec el _ HT HN HS Hla Hlc He Hun1 ltac:(lia))
       as (s1 & Hi1 & HS1 & HT1 & HN1 & Hst1 & Hti1 & Htx1 & Hcur1 & Htg1 & Het1 & Hmx1 & Hsm1 & HpE1 & Hsw1 & Hen1 & Hev1).
     destruct (IH s1 bf rest same srest next HT1 ltac:(rewrite HN1; exact HN) HS1 Hbl' Hbf Hen1)
-      as (s' & Hi & Htx & Hcur & Htg & Hds & Hsw & Hen & Hsm & HpE & new & Hev & Hfl).
+      as (s' & Hi & Htx & Hcur & Htg & Hds & Hsw & Hen & Hsm & HpE & (Fk & FN & Fst & Fti & Fet & Fmx) & new & Hev & Hfl).
     { rewrite HpE1, Het1. exact Hun'. }
     { rewrite HpE1, Het1. exact Hcv. }
     { rewrite Hsw1, Hmx1. lia. }
@@ -96,6 +99,7 @@ Proof.
     split; [rewrite Htg, Htg1; reflexivity|]. split; [exact Hds|].
     split; [rewrite Hsw, Hsw1; cbn [length]; lia|]. split; [exact Hen|]. split; [exact Hsm|].
     split; [rewrite HpE, HpE1; reflexivity|].
+    split; [repeat split; congruence|].
     exists (new ++ EvSave A :: rev (sweep_ev A n)). split.
     + rewrite Hev, Hev1. unfold sweep_trace. rewrite <- app_assoc. reflexivity.
     + rewrite flat_map_app. cbn [flat_map fill_of app]. rewrite no_fill_sweep_trace, app_nil_r, Hfl, Htx1, Htg1. reflexivity.
